@@ -348,6 +348,15 @@ def random_correspondence(ctx, res, programs, max_keys=5000, keep_runs=True, cto
                     diff, [m_enum[1][i] for i in diff][:4], [summary[i] for i in diff][:4])
             else:
                 rec["mismatch"] = "constructor: real ok, model %r" % (m_enum,)
+            # the tie is broken; the search on the real code (every key the real enumerator
+            # believes exists, against the oracle) still runs so that a concrete failing input is found
+            try:
+                if summary[11] <= max_keys and en.solution_count() > 0:
+                    r_all = real_all(blk, en)
+                    rec["keys"] = len(r_all)
+                    rec["real_all"] = r_all if keep_runs else [(k, rows, v, None) for k, rows, v, _ in r_all]
+            except Exception:  # noqa
+                rec["real_all"] = None
             continue
         possible = summary[11]
         rec["possible_keys"] = possible
